@@ -56,7 +56,7 @@ class FloatList(MetaHandlerGenerator):
     """
 
     def __init__(self, elements):
-        self.elements = elements
+        self.elements = [float(e) for e in elements]  # FloatList([-1, 0, 0.5]) refines floats: no int reaches the field
 
     def generate(
         self,
